@@ -419,6 +419,57 @@ def clause_pointer_after_rollback(prog, rep):
     rep.floor("last-message-pointer", "rollback call sites in mdk-core", n, 1)
 
 
+def clause_refresh_searches_every_page(prog, rep):
+    """the pointer is re-derived by walking the listing page by page; a short page is the last one *and still has to be searched* — with
+    fewer messages than one page holds it is the only one.  In a function that lists with a Pagination and assigns the pointer, the
+    page-length stop test comes after the search of that page: in the loop form the search dominates the test, in the iterator form no
+    length-testing adaptor (take_while / map_while / filter / skip_while) sits between the listing and the search"""
+    n = 0
+    for f in prog.nontest_fns(("mdk_core",)):
+        if f.is_closure():
+            continue
+        fam = prog.family(f)
+        lists = [(g, c) for g in fam for c in g.live_calls()
+                 if (c.name in ("get_messages", "messages")) and any("Pagination" in (g.locals[a["p"][0]] if "p" in a else "") for a in c.args)]
+        assigns = any(".last_message_id" in [e for e in st["d"][1:] if isinstance(e, str)] for g in fam for _, st in g.stmts())
+        if not lists or not assigns:
+            continue
+        n += 1
+        bad = []
+        for g, c in lists:
+            # loop form: a switch on `page.len() < PAGE` in the function that lists
+            pages = g.flows_from({c.dst[0]}, through_calls=True, stop_calls=lambda x: x.krate not in ("core", "alloc", "std")) if c.dst else set()
+            searches = [x for x in g.live_calls() if x.name in ("find", "find_map", "position", "any", "max_by", "min_by", "last", "next", "first")
+                        and x.args and "p" in x.args[0] and x.args[0]["p"][0] in pages]
+            for w in range(g.nblocks()):
+                t = g.term(w)
+                if t["k"] != "switch":
+                    continue
+                dep, calls, _ = g.depends_on(A._opl(t["discr"]))
+                if not any(x.name == "len" and x.args and "p" in x.args[0] and x.args[0]["p"][0] in pages for x in calls):
+                    continue
+                if not any(st.get("k") == "binop" and st.get("op") in ("Lt", "Le", "Gt", "Ge", "Eq", "Ne") for st in g.blocks[w]["s"]):
+                    continue
+                if not any(g.dominates(x.bb, w) for x in searches):
+                    bad.append("the page-length test at %s is not preceded by the search of that page" % g.term_loc(w) if hasattr(g, "term_loc") else
+                               "the page-length test is not preceded by the search of that page")
+            # iterator form: the listing runs inside a closure; length-testing adaptors of the host chain
+            if g.is_closure():
+                for h in fam:
+                    for x in h.live_calls():
+                        if x.name in ("take_while", "map_while", "filter", "skip_while") and x.krate in ("core", "alloc", "std"):
+                            for q in A.closure_args(prog, x):
+                                if any(y.name == "len" for qq in prog.family(q) for y in qq.live_calls()):
+                                    og = A.origins(prog, h, x.args[0]["p"][0], scope=set(z.path for z in fam), max_frames=2) if "p" in x.args[0] else None
+                                    if og is not None and og.has_call(lambda y: y is c):
+                                        bad.append("`%s` drops pages by their length before they are searched" % x.name)
+        rep.check(not bad, "last-message-pointer", "%s/searches-every-page" % f.label(),
+                  "every page listed while re-deriving the pointer is searched before its length ends the walk",
+                  "while the pointer is re-derived, %s: with fewer messages than one page holds nothing is searched and the pointer is cleared "
+                  "although valid messages remain" % "; ".join(sorted(set(bad))), f.loc())
+    rep.floor("last-message-pointer", "functions re-deriving the pointer from a paged listing", n, 1)
+
+
 def _is_process_message(t):
     return t.name == "process_message" and last_seg(t.self_adt) == "MDK"
 
@@ -437,6 +488,7 @@ def run(ctx, rep):
     clause_pagination(prog, rep)
     clause_pointer(prog, rep)
     clause_pointer_after_rollback(prog, rep)
+    clause_refresh_searches_every_page(prog, rep)
     # a re-saved message must take its new sort keys in both backends (SQLite: the upsert assigns every non-key column)
     rep.clause("C18.4 the messages upsert assigns every non-key column (created_at / processed_at sort keys follow a re-save, as in the memory backend)")
     sqlrules.clause_upserts(prog, rep, sch, sites, only_tables=("messages",))
